@@ -112,9 +112,9 @@ type FVal struct {
 var Reps = map[string][]string{
 	"id":    {"int64", "int", "int32", "ptr"},
 	"org":   {"int64", "int", "ptr", "uint8"},
-	"name":  {"string", "label", "ptr"},
+	"name":  {"string", "label", "ptr", "bytes"},
 	"age":   {"int64", "int", "ptr", "nil"},
-	"nick":  {"label", "string", "ptr", "nil"},
+	"nick":  {"label", "string", "ptr", "nil", "bytes"},
 	"kind":  {"named", "int64", "int"},
 	"small": {"int32", "int64", "int"},
 	"flag":  {"bool"},
@@ -146,6 +146,8 @@ func Go(col string, f FVal) interface{} {
 		return Kind(n)
 	case "bool":
 		return n == 1
+	case "bytes":
+		return []byte(f.V)
 	case "implicit":
 		if f.V == "NULL" {
 			return ""
